@@ -54,7 +54,16 @@ def wildInt : Gen Int := do
 /-- corruption operators on a byte string -/
 def corrupt (bs : Bytes) : Gen Bytes := do
   let n := bs.length
-  match ← Gen.below 9 with
+  match ← Gen.below 11 with
+  | 9 => -- splice: insert a span (everything behind it shifts)
+    let q ← Gen.below (n + 1)
+    let l ← Gen.oneOf [1, 2, 4, 8, 24, 64]
+    return bs.take q ++ (← Gen.bytes l) ++ bs.drop q
+  | 10 => -- splice: delete a span
+    if n == 0 then return bs
+    let q ← Gen.below n
+    let l ← Gen.oneOf [1, 2, 4, 8, 24, 64]
+    return bs.take q ++ bs.drop (q + l)
   | 0 => -- bit flip
     if n == 0 then return bs
     let p ← Gen.below n
@@ -96,7 +105,8 @@ def malGen (seed idx size : Nat) : Case :=
       let nb ← Gen.oneOf [1, 1, 1, 2, 3]
       let bs ← Gen.listOf nb Gen.Block.genBlock
       let mut data := bs.flatMap encBlock
-      let k ← Gen.range 1 (1 + size)
+      -- 1..(1+size) operators, and 1..8 in one case out of four (the property's chain lengths at every tier)
+      let k ← (do if ← Gen.prob 1 4 then Gen.range 1 8 else Gen.range 1 (1 + size))
       for _ in [0:k] do data ← corrupt data
       return (["page", toString (← Gen.Block.gen32), hexRle data], "page")
     | 2 =>
@@ -113,7 +123,9 @@ def malGen (seed idx size : Nat) : Case :=
     | _ =>
       let f ← Gen.Block.genRelFile 3
       let mut data := encFile f
-      if ← Gen.prob 1 2 then data ← corrupt data
+      if ← Gen.prob 1 2 then
+        let k ← (do if ← Gen.prob 1 4 then Gen.range 1 8 else pure 1)
+        for _ in [0:k] do data ← corrupt data
       return (["file", toString (← wildInt), toString (← wildInt), hexRle data], "file")
   let (args, kind) := g.run' (Prng.ofSeed seed idx)
   let m := malOut args
